@@ -302,7 +302,8 @@ func c05Programs(tier string) []*Spec {
 func init() {
 	register(&Family{
 		Property: "C05",
-		Rule: "histories of Add (before and during rendering), completion, abort, abort+drop, remove-on-complete and pop over 2..3 bars, queue length default and 2 (no detached push possible), auto and manual refresh, shutdown notifier on; every schedule within the deviation bound. " +
+		Rule: "also: a filler error in each bar position (first or second cycle), manual and auto refresh: every healthy bar stays in the notifier's list; " +
+			"histories of Add (before and during rendering), completion, abort, abort+drop, remove-on-complete and pop over 2..3 bars, queue length default and 2 (no detached push possible), auto and manual refresh, shutdown notifier on; every schedule within the deviation bound. " +
 			"Oracle per frame: ids distinct; a bar whose Add returned before the previous frame was flushed and that is not removable is present; a bar never returns after leaving; no bar before its Add was invoked; the notifier value is exactly one list equal to the bars of the last frame minus those that frame dropped.",
 		Items: func(tier string) []Item {
 			var items []Item
